@@ -30,6 +30,7 @@ func runC01(c *core.Ctx) {
 	c.RuleDoc("R01.7", "an entry is created only below an existing directory (os: ENOTDIR / ENOENT) — the analysis of R03.1")
 	c.RuleDoc("R01.8", "a record is stored under a path only where that path was found absent or not a directory (os: rename of a file onto a directory fails) — the analysis of R03.5")
 	c.RuleDoc("R01.9", "the in-memory listing compares child names with constants only")
+	c.RuleDoc("R01.11", "a name that leads through a regular file fails as in os (ENOTDIR), so RemoveAll of it fails too (= R05.7)")
 	c.RuleDoc("R01.10", "Chmod, Stat, Rename, reads, seeks, ReadDir and Close never store a modification time")
 	c.RuleDoc("R01.4", "MkdirAll reports success only after the path's ancestors and the path itself were classified")
 	for _, p := range c.Progs {
@@ -52,6 +53,9 @@ func runC01(c *core.Ctx) {
 		}
 		r01ListingFilter(c, p)
 		r01ModTimeWriters(c, p, sh)
+		if p.Target == load.Linux {
+			r05NotDirThroughFile(c, p, "R01.11")
+		}
 	}
 	c.Floor("R01.1", 240)
 	c.Floor("R01.2", 4)
